@@ -225,6 +225,17 @@ be_pair_outbuf_cb(struct evbuffer *outbuf,
 			be_pair_transfer(downcast(bev_pair), downcast(partner), 0);
 		}
 	}
+	if (info->n_added) {
+		/* Output that has to wait starts the write timeout, unless
+		 * it is running already. */
+		struct bufferevent *bev = downcast(bev_pair);
+		if ((bev->enabled & EV_WRITE) &&
+		    !bev_pair->bev.write_suspended &&
+		    evbuffer_get_length(outbuf) &&
+		    evutil_timerisset(&bev->timeout_write) &&
+		    !event_pending(&bev->ev_write, EV_TIMEOUT, NULL))
+			BEV_RESET_GENERIC_WRITE_TIMEOUT(bev);
+	}
 
 	decref_and_unlock(downcast(bev_pair));
 }
